@@ -277,8 +277,19 @@ def write_replay(mod, pl, viol, minimized_from=None):
     return path
 
 
+def evidence_dir():
+    """Evidence under /verif/evidence describes runs against /repo only: a run against another tree
+    (VERIF_REPO, used by the self-tests) writes its evidence elsewhere."""
+    d = os.environ.get('VERIF_EVIDENCE_DIR')
+    if d:
+        return d
+    if boot.repo_dir() != '/repo':
+        return os.path.join(boot.VERIF_DIR, 'replays', 'evidence-other-tree')
+    return os.path.join(boot.VERIF_DIR, 'evidence')
+
+
 def write_evidence(mod, tr, seed, merged, violations, known_counts, extra=None):
-    d = os.path.join(boot.VERIF_DIR, 'evidence')
+    d = evidence_dir()
     os.makedirs(d, exist_ok=True)
     wall = merged.get('wall_s', 0.0)
     cov = {
